@@ -26,6 +26,10 @@ Inductive justification :=
   | LogOnly            (* the value is only written to the node's log *)
   | InitOnly           (* executed during process wiring (package init), identically at every start *)
   | IdempotentCache    (* process-local cache filled with a constant; every fill writes the same value *)
+  | OwnMessage         (* generated decoder filling a map field of the very message it is decoding *)
+  | CallerLocal        (* the map is a parameter and every caller passes a map it created itself in the
+                          same call tree (reviewed at the call sites) *)
+  | TestDouble         (* in-memory stand-in (mock EVM) wired by simapp; a chain wires the real keeper *)
   | NotConsensusBytes. (* gogoproto binary encoding of a GenesisState with map fields: never stored,
                           hashed or returned; genesis is exported through jsonpb, which sorts map keys
                           (the repeated-export stream compares those bytes) *)
@@ -68,6 +72,27 @@ Definition sanctioned_list : list entry := [
       "aggregate-function router filled from the package initialiser (max, min, avg)";
   mkE "token/types/v1.GetNativeToken" GlobalWrite 10 IdempotentCache
       "lazy default of the native token: constant fields, set once per process unless SetNativeToken was called at wiring";
+  (* ---- maps not created by the updating function (process-local state) *)
+  mkE "(service/keeper.Keeper).RegisterResponseCallback" SharedMapWrite 1 InitOnly
+      "callback registry of the service keeper, filled by the consumers' NewKeeper at wiring";
+  mkE "(service/keeper.Keeper).RegisterStateCallback" SharedMapWrite 1 InitOnly
+      "callback registry of the service keeper, filled at wiring";
+  mkE "(service/keeper.Keeper).SetModuleService" SharedMapWrite 1 InitOnly
+      "module-service registry, filled by oracle's NewKeeper (RegisterModuleService) at wiring";
+  mkE "(service/keeper.Keeper).InitiateRequests" SharedMapWrite 1 CallerLocal
+      "providerRequests is created by the end-blocker's new-batch handler for one batch (events only)";
+  mkE "(*random/types.GenesisState).Unmarshal" SharedMapWrite 1 OwnMessage "map<string, Requests> field";
+  mkE "(*service/types.GenesisState).Unmarshal" SharedMapWrite 2 OwnMessage "the two map fields";
+  mkE "(farm.AppModule).RegisterStoreDecoder" SharedMapWrite 1 InitOnly "simulation store-decoder registry";
+  mkE "(htlc.AppModule).RegisterStoreDecoder" SharedMapWrite 1 InitOnly "simulation store-decoder registry";
+  mkE "(mt.AppModule).RegisterStoreDecoder" SharedMapWrite 1 InitOnly "simulation store-decoder registry";
+  mkE "(nft.AppModule).RegisterStoreDecoder" SharedMapWrite 1 InitOnly "simulation store-decoder registry";
+  mkE "(random.AppModule).RegisterStoreDecoder" SharedMapWrite 1 InitOnly "simulation store-decoder registry";
+  mkE "(record.AppModule).RegisterStoreDecoder" SharedMapWrite 1 InitOnly "simulation store-decoder registry";
+  mkE "(service.AppModule).RegisterStoreDecoder" SharedMapWrite 1 InitOnly "simulation store-decoder registry";
+  mkE "(token.AppModule).RegisterStoreDecoder" SharedMapWrite 1 InitOnly "simulation store-decoder registry";
+  mkE "(*token/keeper.mockEVM).ApplyMessage" SharedMapWrite 1 TestDouble "mock EVM contract table";
+  mkE "(token/keeper.erc20).call" SharedMapWrite 2 TestDouble "mock ERC20 balances";
   (* ---- floating point *)
   mkE "token/keeper.calcFeeFactor" Float 6 QuantisedFloat
       "(ln len / ln 3)^4 formatted with 2 decimals, then parsed as a decimal";
